@@ -1,9 +1,9 @@
 package main
 
 import (
-	"github.com/getkin/kin-openapi/openapi3"
 	"encoding/json"
 	"fmt"
+	"github.com/getkin/kin-openapi/openapi3"
 	"math/rand"
 	"sort"
 	"strconv"
